@@ -103,7 +103,11 @@ func (f *Interface) readOutsidePackets(via ViaSender, packet []byte, rxc *rxCont
 	// recvError if necessary
 	if hostinfo == nil || hostinfo.ConnectionState == nil {
 		if !via.IsRelayed {
-			f.maybeSendRecvError(via.UdpAddr, h.RemoteIndex)
+			// A relay frame naming an index that is live as a direct tunnel is malformed, not stale. A recv_error
+			// for that index would make the peer tear down a healthy tunnel, do not reflect one.
+			if !isMessageRelay || f.hostMap.QueryIndex(h.RemoteIndex) == nil {
+				f.maybeSendRecvError(via.UdpAddr, h.RemoteIndex)
+			}
 		}
 		return
 	}
